@@ -21,6 +21,7 @@ import (
 	"encoding/json"
 	"encoding/pem"
 	"fmt"
+	"io"
 	"net/http"
 	"net/http/httptest"
 	"os"
@@ -28,6 +29,7 @@ import (
 	"sort"
 	"strconv"
 	"strings"
+	"sync/atomic"
 	"testing"
 	"time"
 
@@ -267,8 +269,15 @@ func newC04Keys(dir string) (*c04Keys, error) {
 }
 
 type c04SigServer struct {
-	srv *Server
-	ran int
+	srv  *Server
+	ran  atomic.Int32
+	wire *httptest.Server // the bound router behind a real loopback listener (started on first use)
+}
+
+func (s *c04SigServer) close() {
+	if s.wire != nil {
+		s.wire.Close()
+	}
 }
 
 func newC04SigServer(keys *c04Keys) (*c04SigServer, error) {
@@ -281,7 +290,7 @@ func newC04SigServer(keys *c04Keys) (*c04SigServer, error) {
 	for _, m := range []string{http.MethodGet, http.MethodPost, http.MethodPut, http.MethodDelete} {
 		for _, p := range []string{"/c04/a", "/c04/b"} {
 			routes = append(routes, Route{Method: m, Path: p, Handler: func(w http.ResponseWriter, r *http.Request) {
-				s.ran++
+				s.ran.Add(1)
 				w.WriteHeader(http.StatusOK)
 			}})
 		}
@@ -425,14 +434,51 @@ func runSigCase(c kit.Case, keys *c04Keys, s *c04SigServer) (v kit.Verdict) {
 			}
 			sig = repl + sig[1:]
 		}
-		req := httptest.NewRequest(method, path+"?"+query, strings.NewReader(body))
+		hdr := ""
 		if kit.Str(rq["fp"]) != "missing" {
-			req.Header.Set("X-Content-Security", strings.Join([]string{"fingerprint=" + fp, "secret=" + secret, "signature=" + sig}, "; "))
+			hdr = strings.Join([]string{"fingerprint=" + fp, "secret=" + secret, "signature=" + sig}, "; ")
 		}
-		rec := httptest.NewRecorder()
-		s.ran = 0
-		s.srv.router.ServeHTTP(rec, req)
-		code, ran = rec.Code, s.ran
+		s.ran.Store(0)
+		switch via := kit.Str(rq["via"]); via {
+		case "sized", "unknown":
+			req := httptest.NewRequest(method, path+"?"+query, strings.NewReader(body))
+			if via == "unknown" {
+				// what net/http hands to a handler for a chunked request: a body, length not known
+				req.ContentLength = -1
+				req.Body = io.NopCloser(strings.NewReader(body))
+			}
+			if hdr != "" {
+				req.Header.Set("X-Content-Security", hdr)
+			}
+			rec := httptest.NewRecorder()
+			s.srv.router.ServeHTTP(rec, req)
+			code = rec.Code
+		case "wire":
+			if s.wire == nil {
+				s.wire = httptest.NewServer(s.srv.router)
+			}
+			var rdr io.Reader = http.NoBody
+			if body != "" {
+				rdr = struct{ io.Reader }{strings.NewReader(body)} // length hidden: Transfer-Encoding: chunked
+			}
+			req, err := http.NewRequest(method, s.wire.URL+path+"?"+query, rdr)
+			if err != nil {
+				return c04Infra(c, err.Error())
+			}
+			if hdr != "" {
+				req.Header.Set("X-Content-Security", hdr)
+			}
+			resp, err := s.wire.Client().Do(req)
+			if err != nil {
+				return c04Infra(c, "wire request: "+err.Error())
+			}
+			io.Copy(io.Discard, resp.Body)
+			resp.Body.Close()
+			code = resp.StatusCode
+		default:
+			return c04Infra(c, "unknown delivery "+via)
+		}
+		ran = int(s.ran.Load())
 		if time.Now().Unix() == t0 {
 			break // the server judged the timestamp within the same second the driver computed it for
 		}
@@ -458,6 +504,9 @@ func runSigCase(c kit.Case, keys *c04Keys, s *c04SigServer) (v kit.Verdict) {
 		} else {
 			what += ":time" + kit.Str(rq["ts"])
 		}
+	}
+	if what != "" && kit.Str(rq["via"]) != "sized" {
+		what += ":body-" + kit.Str(rq["via"])
 	}
 	if what != "" {
 		v.OK = false
@@ -506,6 +555,7 @@ func TestVerifC04Api(t *testing.T) {
 				if sigSrv, err = newC04SigServer(keys); err != nil {
 					t.Fatal(err)
 				}
+				defer sigSrv.close()
 			}
 			rep.Put(runSigCase(c, keys, sigSrv))
 		default:
